@@ -1,12 +1,381 @@
-//! C09: harness not built yet.
+//! C09: reliable messaging, unit level.
+//!
+//! Case kinds (interpreter in `transport_common.rs`):
+//!  `mrp`  a bare real `ReliableMessage`: sender loops (`pre_send`, the entry's own delay, virtual
+//!         time, `pre_send` again … until `TxTimeout`) interleaved with received messages carrying
+//!         matching / stale / no acknowledgements, plus direct probes of `RetransEntry::backoff_ms`.
+//!  `tab`  the same through a real `Session` in a real table: new messages, retransmissions past the
+//!         budget, acknowledgements, duplicates and counters around the receive window.
+use crate::proto::{parse_cases, Out};
+use crate::rng::Rng;
 use crate::Args;
 
-pub fn gen(_a: &Args) -> String {
-    eprintln!("C09: harness not built yet");
-    std::process::exit(2);
+#[path = "transport_common.rs"]
+mod tc;
+use tc::{parse_snap, result_of, run_tab_with};
+
+const RULE: &str = "mrp cases: one history on a fresh real ReliableMessage - sender loops (pre_send of a reliable message with base interval absent/0/1/9/10/100/300/5000/random, then repeatedly: read the entry's delay with jitter 0/100/255/random, advance virtual time, pre_send again, up to 2 attempts past the budget) interleaved with post_recv of messages with matching / stale / no ack, reliable or not, and probes of backoff_ms(base, attempt 0..8, jitter); tab cases: the same through a real Session (secure or plain) with duplicates, counters around the 16-wide window, retransmissions past the budget. Every op line carries the implementation's result and the reliability state / table snapshot. Non-trivial = at least two distinct output lines; the #stat lines count give-ups, matching and stale acks, duplicates; distinct = by op list";
+
+fn gen_mrp(r: &mut Rng, len: usize) -> Vec<String> {
+    let mut ops = Vec::new();
+    let mut ctr: u64 = r.range(1, 1 << 28);
+    let mut peer: u64 = r.range(1, 1 << 28);
+    let mut pending: Option<(u64, String)> = None; // (counter, sai token)
+    while ops.len() < len {
+        match r.below(100) {
+            0..=24 => {
+                // start or continue a sender loop
+                let (c, sai) = match &pending {
+                    Some(p) => p.clone(),
+                    None => {
+                        ctr += r.range(1, 3);
+                        let sai = match r.below(10) {
+                            0 => "-".to_string(),
+                            1 => "0".to_string(),
+                            2 => r.pick(&[1u64, 9, 10, 11, 99, 100]).to_string(),
+                            3 => "300".to_string(),
+                            4 => "5000".to_string(),
+                            5 => r.range(1, 100000).to_string(),
+                            6 => "4294967295".to_string(),
+                            _ => r.range(100, 2000).to_string(),
+                        };
+                        (ctr, sai)
+                    }
+                };
+                if pending.is_some() {
+                    ops.push(format!("dl {}", *r.pick(&[0u64, 100, 100, 255, 17])));
+                    ops.push(format!("t {}", *r.pick(&[1u64, 300, 330, 363, 600, 2000, 10000])));
+                }
+                ops.push(format!("ps {} r - {}", c, sai));
+                pending = Some((c, sai));
+            }
+            25..=39 => {
+                // the peer acknowledges (mostly the right counter)
+                peer += 1;
+                let ack = match &pending {
+                    Some((c, _)) if r.chance(3, 5) => *c,
+                    Some((c, _)) => c.wrapping_sub(r.range(1, 3)),
+                    None => r.below(1 << 28),
+                };
+                let good = pending.as_ref().map(|p| p.0 == ack).unwrap_or(false);
+                ops.push(format!("pr {} {} {}", peer, ack, if r.chance(1, 2) { "r" } else { "u" }));
+                if good {
+                    pending = None;
+                }
+            }
+            40..=49 => {
+                peer += 1;
+                ops.push(format!("pr {} - {}", peer, if r.chance(2, 3) { "r" } else { "u" }));
+            }
+            50..=57 => {
+                // an unreliable send (standalone ack)
+                ops.push(format!("ps {} u - -", pending.as_ref().map(|p| p.0).unwrap_or(ctr + 1)));
+                if pending.is_none() {
+                    ctr += 1;
+                }
+            }
+            58..=62 => ops.push(format!("dl {}", r.below(256))),
+            63..=66 => ops.push(format!("to {}", *r.pick(&[0u64, 1, 999, 1000, 1001, 5000]))),
+            67..=72 => ops.push(format!("t {}", *r.pick(&[1u64, 50, 999, 1000, 1001]))),
+            73..=75 => {
+                // a wrong counter on a pending entry: the code panics by design
+                if let Some((c, sai)) = &pending {
+                    ops.push(format!("ps {} r - {}", c + 1, sai));
+                }
+            }
+            _ => {
+                let base = match r.below(6) {
+                    0 => *r.pick(&[0u64, 1, 9, 10, 11, 99, 100, 299, 300, 301, 5000, 65535, 4294967295]),
+                    1 => r.range(1, 100),
+                    _ => r.range(100, 10000),
+                };
+                let rj = r.below(256);
+                let cnt = r.below(9);
+                ops.push(format!("bo {} {} {}", base, cnt, *r.pick(&[0u64, 1, 100, 254, 255, rj])));
+            }
+        }
+    }
+    ops
 }
 
-pub fn replay(_a: &Args) -> String {
-    eprintln!("C09: harness not built yet");
-    std::process::exit(2);
+fn gen_tab(r: &mut Rng, out: &mut Out, len: usize) {
+    run_tab_with(out, &mut |exec| {
+        exec(&format!("setxid {}", r.range(1, 65535)));
+        let secure = r.chance(4, 5);
+        let full = exec(&format!("add {} 0 5000", r.below(1 << 32)));
+        let uid: u32 = result_of(&full).strip_prefix("id ").and_then(|t| t.parse().ok()).unwrap_or(0);
+        if secure {
+            exec(&format!("mode {} {}", uid, if r.chance(1, 2) { "c" } else { "p" }));
+        }
+        let mut g = parse_snap(&exec(&format!("init {} h1", uid)));
+        let mut next_h = 1;
+        let mut peer_max: u64 = r.range(20, 1 << 30);
+        let mut seen: Vec<u64> = vec![];
+        let mut orig: Vec<(usize, String)> = Vec::new();
+        for _ in 0..len {
+            let live: Vec<(usize, u32, String, Option<(u32, u32)>)> = g.sessions.iter().filter(|s| s.uid == uid)
+                .flat_map(|s| s.slots.iter().enumerate().filter_map(|(i, sl)| sl.as_ref().map(|sl| (i, sl.id, sl.role.clone(), sl.rt)))).collect();
+            let op: String = match r.below(100) {
+                0..=17 => {
+                    let free: Vec<_> = live.iter().filter(|l| l.3.is_none()).collect();
+                    if free.is_empty() { "t 100".into() } else {
+                        let l = *r.pick(&free);
+                        format!("tx {} {} r - n {}", uid, l.0, *r.pick(&["-", "300", "0", "1000"]))
+                    }
+                }
+                18..=47 => {
+                    if orig.is_empty() { "t 330".into() } else { r.pick(&orig).1.clone() }
+                }
+                48..=62 => {
+                    // the peer's next message on one of the exchanges; acknowledges what is pending (or not)
+                    if live.is_empty() { "t 10".into() } else {
+                        let l = r.pick(&live).clone();
+                        let c = match r.below(10) {
+                            0..=5 => { peer_max += r.range(1, 3); peer_max }
+                            6 => peer_max.saturating_sub(r.range(1, 18)),
+                            7 => if seen.is_empty() { peer_max } else { *r.pick(&seen) },
+                            8 => { peer_max += r.range(15, 40); peer_max }
+                            _ => peer_max.saturating_sub(r.range(17, 200)),
+                        };
+                        seen.push(c);
+                        let ack = match l.3 {
+                            Some((pc, _)) if r.chance(3, 4) => pc.to_string(),
+                            Some((pc, _)) => (pc as u64 + r.range(1, 2)).to_string(),
+                            None => if r.chance(1, 3) { r.below(1 << 28).to_string() } else { "-".into() },
+                        };
+                        format!("rx {} {} {} {} {} {} {}", uid, c, l.1, if l.2.starts_with('R') { "I" } else { "R" }, ack,
+                            if r.chance(2, 3) { "r" } else { "u" }, if r.chance(1, 4) { "a" } else { "n" })
+                    }
+                }
+                63..=72 => {
+                    // a new exchange opened by the peer
+                    peer_max += 1;
+                    seen.push(peer_max);
+                    format!("rx {} {} {} I - r n", uid, peer_max, r.range(1, 65535))
+                }
+                73..=77 => {
+                    next_h += 1;
+                    format!("init {} h{}", uid, next_h)
+                }
+                78..=81 => format!("xdrop h{}", r.range(1, next_h as u64)),
+                82..=84 => format!("tx {} - u {} a", uid, peer_max),
+                _ => format!("t {}", *r.pick(&[1u64, 330, 528, 1000, 5000])),
+            };
+            let full = exec(&op);
+            let res = result_of(&full).to_string();
+            g = parse_snap(&full);
+            let w: Vec<&str> = op.split_whitespace().collect();
+            if w[0] == "tx" && res.contains(" rt 0 ") && w[2] != "-" {
+                let slot: usize = w[2].parse().unwrap_or(0);
+                orig.retain(|o| o.0 != slot);
+                orig.push((slot, op.clone()));
+            }
+            orig.retain(|o| g.sessions.iter().any(|s| s.uid == uid && s.slots.get(o.0).and_then(|x| x.as_ref()).map(|sl| sl.rt.is_some()).unwrap_or(false)));
+        }
+    });
+}
+
+/// Parse an unsecured datagram: (counter, exchange flags, opcode, ack counter, first payload byte).
+fn parse_wire(b: &[u8]) -> Option<(u32, u8, u8, Option<u32>, Option<u8>)> {
+    if b.len() < 8 {
+        return None;
+    }
+    let flags = b[0];
+    let ctr = u32::from_le_bytes([b[4], b[5], b[6], b[7]]);
+    let mut o = 8;
+    if flags & 0x04 != 0 {
+        o += 8;
+    }
+    match flags & 0x03 {
+        1 => o += 8,
+        2 => o += 2,
+        _ => {}
+    }
+    if b.len() < o + 6 {
+        return None;
+    }
+    let xf = b[o];
+    let opc = b[o + 1];
+    let mut p = o + 6;
+    if xf & 0x10 != 0 {
+        p += 2;
+    }
+    let ack = if xf & 0x02 != 0 && b.len() >= p + 4 {
+        let a = u32::from_le_bytes([b[p], b[p + 1], b[p + 2], b[p + 3]]);
+        p += 4;
+        Some(a)
+    } else {
+        None
+    };
+    Some((ctr, xf, opc, ack, b.get(p).copied()))
+}
+
+/// `sys` cases: two real nodes on the simulated adversarial network. One op:
+///  `flow <seed> <drop pm> <dup pm> <delay pm> <max delay ms> <messages>`
+/// Node 1 opens an unsecured exchange to node 0 and sends `<messages>` reliable messages one after the
+/// other (payload byte = message number); node 0's application accepts the exchange, logs what it
+/// receives and acknowledges. Result: `base=<ms> res=<per message ok|ErrCode|hang> app=<received numbers in order>
+/// wire=<t>:<from>:<verdict>:<ctr>:<flags>:<ack|->:<number|->,...`
+fn run_sys(out: &mut Out, ops: &[String]) {
+    use crate::simnet::{addr_of, now_ms, run_sim, RandomPolicy, SimEnd, SimNet, Verdict};
+    use embassy_futures::select::{select, select3, Either3};
+    use rs_matter::crypto::test_only_crypto;
+    use rs_matter::dm::devices::test::{TEST_DEV_ATT, TEST_DEV_COMM, TEST_DEV_DET};
+    use rs_matter::error::Error;
+    use rs_matter::sc::{OpCode, PROTO_ID_SECURE_CHANNEL};
+    use rs_matter::transport::exchange::{Exchange, MessageMeta};
+    use rs_matter::transport::network::NoNetwork;
+    use rs_matter::Matter;
+    use std::cell::RefCell;
+
+    for op in ops {
+        let w: Vec<u64> = op.split_whitespace().skip(1).filter_map(|t| t.parse().ok()).collect();
+        if !op.starts_with("flow") || w.len() < 6 {
+            out.op(op, "bad");
+            continue;
+        }
+        embassy_time::MockDriver::get().reset();
+        let net = SimNet::new(2, Box::new(RandomPolicy { rng: Rng::new(w[0]), drop_pm: w[1].min(1000), dup_pm: w[2].min(1000), delay_pm: w[3].min(1000), max_delay_ms: w[4].min(3000) }));
+        let device = Box::new(Matter::new(&TEST_DEV_DET, TEST_DEV_COMM, &TEST_DEV_ATT, 0));
+        let controller = Box::new(Matter::new(&TEST_DEV_DET, TEST_DEV_COMM, &TEST_DEV_ATT, 0));
+        let crypto = test_only_crypto();
+        let ds = net.socket(0);
+        let cs = net.socket(1);
+        let n_msgs = w[5].clamp(1, 6) as u8;
+        let results: RefCell<Vec<String>> = RefCell::new(Vec::new());
+        let app: RefCell<Vec<u8>> = RefCell::new(Vec::new());
+        let sender = async {
+            let mut ex = Exchange::initiate_plaintext(&controller, &crypto, addr_of(0)).await?;
+            for i in 0..n_msgs {
+                let r = ex
+                    .send_with(|_, wb| {
+                        wb.append(&[i, 0xaa, 0xbb, 0xcc])?;
+                        Ok(Some(MessageMeta::new(PROTO_ID_SECURE_CHANNEL, OpCode::PBKDFParamRequest as u8, true)))
+                    })
+                    .await;
+                match r {
+                    Ok(()) => results.borrow_mut().push("ok".into()),
+                    Err(e) => {
+                        results.borrow_mut().push(format!("{:?}", e.code()));
+                        break;
+                    }
+                }
+            }
+            Ok::<(), Error>(())
+        };
+        let receiver = async {
+            loop {
+                let mut ex = Exchange::accept(&device).await?;
+                loop {
+                    let id = match ex.recv().await {
+                        Ok(rx) => rx.payload().first().copied().unwrap_or(0xff),
+                        Err(_) => break,
+                    };
+                    app.borrow_mut().push(id);
+                    if ex.acknowledge().await.is_err() {
+                        break;
+                    }
+                }
+            }
+            #[allow(unreachable_code)]
+            Ok::<(), Error>(())
+        };
+        let dev_run = device.run(&crypto, &ds, &ds, NoNetwork);
+        let ctl_run = controller.run(&crypto, &cs, &cs, NoNetwork);
+        let mut nodes = core::pin::pin!(select3(dev_run, ctl_run, receiver));
+        let mut sender = core::pin::pin!(sender);
+        let finished = {
+            let both = select(nodes.as_mut(), sender.as_mut());
+            matches!(run_sim(&net, both, 120_000), SimEnd::Done(embassy_futures::select::Either::Second(_)))
+        };
+        if !finished {
+            results.borrow_mut().push("hang".into());
+        }
+        // let delayed copies arrive and be acknowledged
+        let _ = run_sim(&net, nodes.as_mut(), 4_000);
+        let _ = now_ms();
+        let _: Option<Either3<(), (), ()>> = None;
+        let mut wire = Vec::new();
+        for l in net.log() {
+            let v = match l.verdict {
+                Verdict::Deliver => "d".to_string(),
+                Verdict::Drop => "x".to_string(),
+                Verdict::Dup => "2".to_string(),
+                Verdict::Delay(ms) => format!("l{}", ms),
+            };
+            match parse_wire(&l.bytes) {
+                Some((ctr, xf, _opc, ack, id)) => wire.push(format!(
+                    "{}:{}:{}:{}:{}:{}:{}",
+                    l.t_ms,
+                    l.from,
+                    v,
+                    ctr,
+                    xf,
+                    ack.map(|a| a.to_string()).unwrap_or("-".into()),
+                    if xf & 0x04 != 0 { id.map(|i| i.to_string()).unwrap_or("-".into()) } else { "-".into() }
+                )),
+                None => wire.push(format!("{}:{}:{}:?:0:-:-", l.t_ms, l.from, v)),
+            }
+        }
+        let res = format!(
+            "base={} res={} app={} wire={}",
+            TEST_DEV_DET.sai.unwrap_or(300),
+            results.borrow().join(","),
+            app.borrow().iter().map(|i| i.to_string()).collect::<Vec<_>>().join(","),
+            wire.join(",")
+        );
+        for r in results.borrow().iter() {
+            out.stat(&format!("sys_res_{}", r), 1);
+        }
+        out.stat("sys_datagrams", net.log_len() as u64);
+        out.op(op, &res);
+    }
+}
+
+pub fn gen(a: &Args) -> String {
+    let mut r = Rng::new(a.seed);
+    let mut out = Out::default();
+    out.buf.push_str(&format!("#rule {}\n", RULE));
+    let n_cases = if a.thorough { 100000 } else { 12000 };
+    for id in 0..n_cases {
+        let mut cr = r.fork();
+        let len = if a.thorough { cr.range(5, 120) } else { cr.range(5, 50) } as usize;
+        if cr.chance(3, 5) {
+            let ops = gen_mrp(&mut cr, len);
+            tc::run_case(&mut out, &crate::proto::Case { id, kind: "mrp".into(), ops });
+        } else {
+            out.case(id, "tab");
+            gen_tab(&mut cr, &mut out, len);
+        }
+    }
+    // system level: two real nodes, adversarial network, virtual time
+    let n_sys = if a.thorough { 6000 } else { 600 };
+    for id in 0..n_sys {
+        let mut cr = r.fork();
+        let (drop, dup, delay) = match cr.below(6) {
+            0 => (0, 0, 0),
+            1 => (1000, 0, 0), // nothing gets through: the give-up
+            2 => (cr.range(100, 600), 0, 0),
+            3 => (0, cr.range(100, 500), cr.range(0, 300)),
+            _ => (cr.range(0, 500), cr.range(0, 300), cr.range(0, 300)),
+        };
+        let ops = vec![format!("flow {} {} {} {} {} {}", cr.below(1 << 32), drop, dup, delay, *cr.pick(&[50u64, 400, 800, 2500]), cr.range(1, 4))];
+        out.case(n_cases + id, "sys");
+        run_sys(&mut out, &ops);
+    }
+    out.finish()
+}
+
+pub fn replay(a: &Args) -> String {
+    let text = std::fs::read_to_string(a.input.as_ref().expect("--in")).expect("read input");
+    let mut out = Out::default();
+    for c in parse_cases(&text) {
+        if c.kind.starts_with("sys") {
+            out.case(c.id, &c.kind);
+            run_sys(&mut out, &c.ops);
+        } else {
+            tc::run_case(&mut out, &c);
+        }
+    }
+    out.finish()
 }
